@@ -216,23 +216,37 @@ func (e *env19) doOp(h *hist19, i int) {
 			line = "work force-release " + h.unit
 		}
 	}
-	k, err := ctl.DialUnix(e.d.Sock, e.to)
-	if err != nil {
-		e.res.inconclusive("cannot open session: %v", err)
-		h.dead = true
+	var l string
+	var recv []byte
+	for attempt := 0; ; attempt++ {
+		k, err := ctl.DialUnix(e.d.Sock, e.to)
+		if err != nil {
+			e.res.inconclusive("cannot open session: %v", err)
+			h.dead = true
 
-		return
-	}
-	defer k.Close()
-	_ = k.Send([]byte(line + "\n"))
-	l, err := k.ReadLine(e.to)
-	if err != nil {
-		e.res.inconclusive("no reply to %q within %v", line, e.to)
-		h.dead = true
+			return
+		}
+		_ = k.Send([]byte(line + "\n"))
+		l, err = k.ReadLine(e.to)
+		recv = append(recv, k.Received()...)
+		k.Close()
+		if err != nil {
+			e.res.inconclusive("no reply to %q within %v", line, e.to)
+			h.dead = true
 
-		return
+			return
+		}
+		// "work list" takes the ids first and looks each one up afterwards: when another unit (of another history, released
+		// asynchronously on a reachable node) disappears in between, the whole list fails with that unit's name.  Ask again.
+		if op == "list" && strings.HasPrefix(l, "ERROR: unknown work unit ") && !strings.HasSuffix(l, " "+h.unit) && attempt < 5 {
+			e.res.count("list_failed_on_concurrently_released_unit")
+			time.Sleep(100 * time.Millisecond)
+
+			continue
+		}
+
+		break
 	}
-	recv := k.Received()
 	h.trace = append(h.trace, map[string]any{"op": op, "line": line, "reply": trunc(l, 500)})
 	e.res.count("op_" + op)
 	if e.scan(op+"-reply", recv, h) {
